@@ -54,7 +54,8 @@ class Prop:
             "actions_not_applicable": sum(c.get("skipped", 0) for c in cases),
             "steps_not_settled": sum(c.get("slow", 0) for c in cases),
             "stuck": [c["stuck"] for c in cases if c.get("stuck")][:5],
-            "race_rounds": sum(1 for c in races if c["race"]["kind"] not in ("drain", "inside-batch", "timer-callback")),
+            "race_rounds": sum(1 for c in races if c["race"]["kind"] not in ("drain", "inside-batch", "inside-handshake", "timer-callback")),
+            "inside_handshake_rounds": sum(1 for c in races if c["race"]["kind"] == "inside-handshake"),
             "timer_callback_rounds": sum(1 for c in races if c["race"]["kind"] == "timer-callback"),
             "timer_callback_removal_returned_while_send_parked": sum(1 for c in races if c["race"].get("removal_returned_while_send_parked")),
             "inside_batch_rounds": sum(1 for c in races if c["race"]["kind"] == "inside-batch"),
@@ -118,7 +119,7 @@ class Prop:
         return fs
 
     def shrink_candidates(self, case):
-        if case.get("mode", 0) == 1 or (len(case["plan"]) == 1 and case["plan"][0].split()[0] in ("drain", "insidebatch", "race", "timercallback")):
+        if case.get("mode", 0) == 1 or (len(case["plan"]) == 1 and case["plan"][0].split()[0] in ("drain", "insidebatch", "insidehandshake", "race", "timercallback")):
             return
         plan = case["plan"]
         n = len(plan)
@@ -136,6 +137,9 @@ class Prop:
         clause = f["pos"] % 10
         if case.get("mode", 0) == 1 and str(case.get("gen", "")).startswith("timer-callback"):
             return {2: "removal-timer-callback-ghost-index-entry", 1: "removal-timer-callback-datagram-after-return"}.get(clause, "removal-timer-callback-clause%d" % clause)
+        if case.get("mode", 0) == 1 and str(case.get("gen", "")).startswith("inside-handshake"):
+            return {2: "removal-inside-handshake-ghost-index-entry", 1: "removal-inside-handshake-datagram-after-return",
+                    4: "identity-change-inside-handshake-response-under-old-identity"}.get(clause, "revocation-inside-handshake-clause%d" % clause)
         if case.get("mode", 0) == 1 and str(case.get("gen", "")).startswith("inside-batch"):
             return {2: "removal-inside-tun-batch-ghost-index-entry", 1: "removal-inside-tun-batch-datagram-after-return"}.get(clause, "removal-inside-tun-batch-clause%d" % clause)
         if case.get("mode", 0) == 1 and str(case.get("gen", "")).startswith("drain"):
